@@ -208,6 +208,9 @@ impl<'a> Engine<'a> {
         }
         let alive = ledger::alive_count();
         let want = stored + self.h.leaked_ok;
+        if alive > want && self.h.fault_leak {
+            return; // elements leaked by an injected user panic: tolerated
+        }
         if alive != want {
             let what = if alive > want { "leak" } else { "destroyed-too-many" };
             let ids = ledger::alive_ids();
@@ -419,26 +422,69 @@ impl<'a> Engine<'a> {
 
     fn op_retain<F: Fam, const N: usize>(&mut self, s: &mut Sut<F, N>) {
         let mask = self.rng.next();
-        self.step("retain", || format!("retain(mask={:#06x})", mask & 0xFFFF));
-        self.fp_step(s, O_RETAIN, 0, mask & ((1 << (self.universe + 1)) - 1));
+        let len0 = s.model.len();
+        // sometimes the predicate panics at its k-th call (C04 meets C07: membership must stay a set)
+        let panic_at: Option<usize> = if len0 > 0 && self.rng.chance(1, 6) { Some(1 + self.rng.usize_below(len0)) } else { None };
+        self.step("retain", || format!("retain(mask={:#06x}{})", mask & 0xFFFF, panic_at.map_or(String::new(), |k| format!(", predicate panics at call {}", k))));
+        self.fp_step(s, O_RETAIN, u32::from(panic_at.is_some()), mask & ((1 << (self.universe + 1)) - 1));
         let keep = |class: u32| (mask >> (class % 60)) & 1 == 1;
         let nkeep = s.model.ents.iter().filter(|e| keep(e.class)).count();
-        let outcome = if nkeep == s.model.len() { "keep-all" } else if nkeep == 0 { "drop-all" } else { "some" };
+        let outcome = if panic_at.is_some() { "predicate-panics" } else if nkeep == s.model.len() { "keep-all" } else if nkeep == 0 { "drop-all" } else { "some" };
         if !self.light { self.cx.rep.hit(&format!("retain:{}:{}", outcome, fill_name(s.model.len(), N))); }
         let mut calls: Vec<u32> = Vec::new();
-        s.fr.get_mut().retain(|k| {
-            k.chk("retain() element");
-            calls.push(k.class());
-            keep(k.class())
-        });
-        let mut sorted = calls.clone();
-        sorted.sort_unstable();
-        let mut want = s.model.classes();
-        want.sort_unstable();
-        if sorted != want {
-            self.h.viol("C07", "retain-visits", format!("retain asked its predicate about classes {:?}; the stored classes were {:?}", calls, want));
+        let r = {
+            let set = s.fr.get_mut();
+            fault::catch(|| {
+                set.retain(|k| {
+                    k.chk("retain() element");
+                    calls.push(k.class());
+                    if Some(calls.len()) == panic_at {
+                        std::panic::panic_any(fault::Injected(fault::Cb::Closure, 0));
+                    }
+                    keep(k.class())
+                })
+            })
+        };
+        match r {
+            Caught::Ok(()) => {
+                let mut sorted = calls.clone();
+                sorted.sort_unstable();
+                let mut want = s.model.classes();
+                want.sort_unstable();
+                if sorted != want {
+                    self.h.viol("C07", "retain-visits", format!("retain asked its predicate about classes {:?}; the stored classes were {:?}", calls, want));
+                }
+                s.model.ents.retain(|e| keep(e.class));
+            }
+            Caught::Injected(..) => {
+                // interrupted retain: which rejected elements are already gone is the implementation's
+                // business, but membership must still be a set made of previous members, and nothing
+                // the predicate accepted or was never asked about may have disappeared
+                self.h.fault_leak = true;
+                self.cx.rep.num("retains_interrupted_by_a_predicate_panic", 1);
+                let asked = &calls[..calls.len().saturating_sub(1)];
+                let present: Vec<u32> = s.fr.get().iter().map(|k| k.class()).collect();
+                let mut dedup = present.clone();
+                dedup.sort_unstable();
+                dedup.dedup();
+                if dedup.len() != present.len() {
+                    self.h.viol("C07", "not-a-set-after-interrupted-retain", format!("after a retain interrupted by a predicate panic the set yields classes {:?}: an element is stored twice, so remove() and contains() contradict each other", present));
+                }
+                for c in &present {
+                    if s.model.get(*c).is_none() {
+                        self.h.viol("C07", "phantom-after-interrupted-retain", format!("after an interrupted retain the set holds class {} which it did not hold before", c));
+                    }
+                }
+                for e in &s.model.ents {
+                    let must_stay = !calls.contains(&e.class) || (asked.contains(&e.class) && keep(e.class)) || calls.last() == Some(&e.class);
+                    if must_stay && !present.contains(&e.class) {
+                        self.h.viol("C07", "lost-by-interrupted-retain", format!("class {} was accepted by (or never shown to) the predicate but is gone after the interrupted retain", e.class));
+                    }
+                }
+                s.model.ents.retain(|e| present.contains(&e.class));
+            }
+            Caught::Panic(msg) => self.h.viol("C07", "unexpected-panic", format!("retain panicked: {}", msg)),
         }
-        s.model.ents.retain(|e| keep(e.class));
     }
 
     fn op_clear<F: Fam, const N: usize>(&mut self, s: &mut Sut<F, N>) {
